@@ -69,7 +69,7 @@ pub fn check_agreement(rep: &Report, cnt: &Counters, case: &Value, root: &str, d
             let self_param = db
                 .definitions
                 .get(name)
-                .map(|v| v.iter().any(|x| &x.file_path == f && x.line == *line))
+                .map(|v| v.iter().any(|x| &x.file_path == f && x.line <= *line && *line <= x.end_line))
                 .unwrap_or(false);
             let q = |kind: &str| json!({"kind": kind, "file": rel(f, root), "line": line, "col": start});
             let ctx = format!(
@@ -121,7 +121,7 @@ pub fn check_agreement(rep: &Report, cnt: &Counters, case: &Value, root: &str, d
                                 got.sort();
                                 let mut want: Vec<(String, String)> = Vec::new();
                                 for dep in &d.dependencies {
-                                    let pu = db.usages.get(&d.file_path).and_then(|us| us.iter().find(|u| u.line == d.line && &u.name == dep).map(|u| (u.line, u.start_char)));
+                                    let pu = db.usages.get(&d.file_path).and_then(|us| us.iter().find(|u| u.line >= d.line && u.line <= d.end_line && &u.name == dep).map(|u| (u.line, u.start_char)));
                                     if let Some((pl, pc)) = pu {
                                         if let Some(g) = db.find_fixture_definition(&d.file_path, (pl - 1) as u32, pc as u32) {
                                             want.push((dep.clone(), format!("{}:{}", rel(&g.file_path, root), g.line)));
@@ -144,7 +144,7 @@ pub fn check_agreement(rep: &Report, cnt: &Counters, case: &Value, root: &str, d
             }
             // inlay hint at this usage
             let h: Vec<&InlayHint> = hints.iter().filter(|h| h.position.line == l0 && h.position.character as usize == *end).collect();
-            let is_param = text.as_ref().and_then(|t| t.lines().nth(*line - 1).map(|l| l.trim_start().starts_with("def ") || l.trim_start().starts_with("async def "))).unwrap_or(false);
+            let is_param = text.as_ref().and_then(|t| t.lines().nth(*line - 1).map(|l| l.trim_start().starts_with("def ") || l.trim_start().starts_with("async def ") || l.trim() == format!("{},", name))).unwrap_or(false);
             let want_label = d.as_ref().and_then(|d| d.return_type.as_ref()).map(|rt| format!(": {}", rt));
             for hh in &h {
                 let lab = match &hh.label { InlayHintLabel::String(s) => s.clone(), _ => String::new() };
